@@ -3,16 +3,18 @@ from ann import Overlay, ghost
 o = Overlay('/verif/contracts/replace.rs')
 o.strip_ghost()
 
+# ---- helper spec outside the sections: what the inner hook records for a forwarded script
+# (kept in the overlay header, written once by hand)
+
 # ---- ghost fields
 i = o.find('eq: Option<(usize, usize, usize)>,')
 o.lines[i+1:i+1] = ghost('''
-hist: Ghost<Seq<Ev>>,   // every call received (ghost)
+hist: Ghost<Seq<Ev>>,   // every successful call received (ghost)
 rst0: Ghost<St>,        // checker state the first call is expected from; set by the creator (ghost)
 em: Ghost<Seq<Ev>>,     // what has been forwarded to the inner hook (ghost)
 it0: Ghost<Seq<Ev>>,    // the inner hook's history when this adapter was created (ghost)
 ''', '    ')
 
-# ---- spec vocabulary of the adapter
 i = o.find('impl<D: DiffHook> Replace<D> {')
 o.lines[i+1:i+1] = ghost('''
 pub closed spec fn inner(&self) -> D { self.d }
@@ -27,31 +29,39 @@ pub closed spec fn p_eq(&self) -> Option<(usize, usize, usize)> { self.eq }
 pub open spec fn rr(&self) -> Rel { if self.inner().relies() { self.inner().rely_rel() } else { rel_true() } }
 /// weak-checker state after everything received
 pub open spec fn rst(&self) -> St { run_rel(self.rr(), self.rst0_(), self.hist_()) }
+pub open spec fn x0(&self) -> Xs { xcanon(self.rst0_().oc, self.rst0_().nc, self.rst0_().oe, self.rst0_().ne) }
 /// exact-checker state after everything forwarded
-pub open spec fn xs(&self) -> Xs { xrun(self.rr(), xcanon(self.rst0_().oc, self.rst0_().nc, self.rst0_().oe, self.rst0_().ne), self.em_()) }
+pub open spec fn xs(&self) -> Xs { xrun(self.rr(), self.x0(), self.em_()) }
 pub open spec fn el(&self) -> int { match self.p_eq() { Some((o, n, l)) => l as int, None => 0 } }
 pub open spec fn dl(&self) -> int { match self.p_del() { Some((o, l, n)) => l as int, None => 0 } }
 pub open spec fn il(&self) -> int { match self.p_ins() { Some((o, n, l)) => l as int, None => 0 } }
-/// I_R: forwarded script ++ pending calls == received script (exactly, in normal form)
-pub open spec fn inv(&self) -> bool {
+pub open spec fn idle(&self) -> bool { self.p_del() is None && self.p_ins() is None && self.p_eq() is None }
+/// I_R: forwarded script ++ pending calls == received script; the forwarded script is exact and in normal form
+pub open spec fn core(&self) -> bool {
     let rst = self.rst(); let xs = self.xs(); let r0 = self.rst0_();
-    &&& wf(r0) && r0.oe <= usize::MAX && r0.ne <= usize::MAX
-    &&& self.inner().trace() == self.it0_() + self.em_()
+    &&& wf(r0) && r0.ro == r0.oc && r0.rn == r0.nc && r0.oe <= usize::MAX && r0.ne <= usize::MAX
+    &&& rst.ok
+    &&& self.inner().trace() == self.it0_() + sent::<D>(self.em_()) + (if rst.fin { fin::<D>() } else { Seq::<Ev>::empty() })
+    &&& !self.inner().failed() && self.inner().accepts_replace()
     &&& xs.ok && xs.oc == rst.oc - self.el() - self.dl() && xs.nc == rst.nc - self.el() - self.il()
     &&& xs.dels == (rst.dels - r0.dels) - self.dl() && xs.inss == (rst.inss - r0.inss) - self.il() && xs.eqs == (rst.eqs - r0.eqs) - self.el()
     &&& (self.p_eq() matches Some((o, n, l)) ==> self.p_del() is None && self.p_ins() is None && l > 0 && o == xs.oc && n == xs.nc && xs.last != 1
+            && rst.ro == rst.oc && rst.rn == rst.nc && rst.po <= rst.oc && rst.pn <= rst.nc
             && (forall|i: int| 0 <= i < l ==> #[trigger] relk(self.rr(), o as int, n as int, i)))
     &&& (self.p_del() matches Some((o, l, n)) ==> l > 0 && o == xs.oc && rst.rn <= n && n <= rst.pn)
     &&& (self.p_ins() matches Some((o, n, l)) ==> l > 0 && n == xs.nc && rst.ro <= o && o <= rst.po)
     &&& ((self.p_del() is Some || self.p_ins() is Some) ==> self.p_eq() is None && xs.last != 2 && rst.ro == xs.oc && rst.rn == xs.nc)
-    &&& ((self.p_del() is None && self.p_ins() is None && self.p_eq() is None) ==> xs.last != 1 || rst.ro < rst.oc || rst.rn < rst.nc)
-    &&& (self.inner().relies() ==> wf(self.inner().rely_st()) && self.inner().rely_st().oc == xs.oc && self.inner().rely_st().nc == xs.nc
-            && self.inner().rely_st().oe >= r0.oe && self.inner().rely_st().ne >= r0.ne)
+    &&& (rst.fin ==> self.idle())
+    &&& (self.inner().relies() ==> self.inner().rely_st().ok && self.inner().rely_st().oc == xs.oc && self.inner().rely_st().nc == xs.nc
+            && self.inner().rely_st().oe >= r0.oe && self.inner().rely_st().ne >= r0.ne
+            && (!rst.fin ==> wf(self.inner().rely_st())))
 }
-/// what a creator has to establish (by ghost assignment of rst0) before the first call
+pub open spec fn inv(&self) -> bool {
+    self.core() && (self.idle() && !self.rst().fin ==> self.hist_().len() == 0 && self.em_().len() == 0)
+}
+/// after creation (the creator then assigns rst0 by a ghost assignment)
 pub open spec fn fresh(&self) -> bool {
-    self.hist_() == Seq::<Ev>::empty() && self.em_() == Seq::<Ev>::empty() && self.it0_() == self.inner().trace()
-    && self.p_del() is None && self.p_ins() is None && self.p_eq() is None
+    self.hist_() == Seq::<Ev>::empty() && self.em_() == Seq::<Ev>::empty() && self.it0_() == self.inner().trace() && self.idle()
 }
 ''', '    ')
 
@@ -67,46 +77,205 @@ o.before('{', '''
     ensures res == self.inner(),
 ''', start=o.find('pub fn into_inner(self)'), ind='    ')
 
-# ---- flush_eq: forwards the pending Equal (if any)
+FRAME = '''        final(self).hist_() == old(self).hist_(), final(self).rst0_() == old(self).rst0_(), final(self).it0_() == old(self).it0_(),
+        hook_frame(old(self).inner(), final(self).inner(), res),'''
+
+# ---- flush_eq
 fe = o.find('fn flush_eq(&mut self)')
 o.before('{', '''
-    requires old(self).inv(), old(self).rst().ok, !old(self).inner().failed(),
-        old(self).p_eq() is Some ==> true,
+    requires old(self).core(), !old(self).rst().fin,
     ensures
-        final(self).hist_() == old(self).hist_(), final(self).rst0_() == old(self).rst0_(), final(self).it0_() == old(self).it0_(),
-        final(self).p_del() == old(self).p_del(), final(self).p_ins() == old(self).p_ins(), final(self).p_eq() is None,
-        hook_frame(old(self).inner(), final(self).inner(), res),
-        res.is_ok() ==> final(self).inv() && (old(self).p_eq() is Some ==> final(self).xs().last == 1) && (old(self).p_eq() is None ==> final(self).xs().last == old(self).xs().last),
+''' + FRAME + '''
+        res.is_ok() ==> final(self).core() && final(self).p_eq() is None
+            && final(self).p_del() == old(self).p_del() && final(self).p_ins() == old(self).p_ins()
+            && (old(self).p_eq() is Some ==> final(self).xs().last == 1)
+            && (old(self).p_eq() is None ==> final(self).em_() == old(self).em_()),
 ''', start=fe, ind='    ')
 i = o.find('self.d.equal(eq_old_index, eq_new_index, eq_len)?', fe)
 o.lines[i:i] = ghost('''
 let ghost e = Ev::Equal(eq_old_index, eq_new_index, eq_len);
-let ghost pre = *self;
+let ghost pre = *vstd::prelude::old(self);
 proof {
-    lemma_xrun_mono(pre.rr(), xcanon(pre.rst0_().oc, pre.rst0_().nc, pre.rst0_().oe, pre.rst0_().ne), pre.em_());
+    lemma_xrun_mono(pre.rr(), pre.x0(), pre.em_());
     lemma_mono(pre.rr(), pre.rst0_(), pre.hist_());
     if self.d.relies() { lemma_step_exact(self.d.rely_rel(), self.d.rely_st(), e); }
 }
 ''', '            ')
-j = o.find('self.d.equal(eq_old_index, eq_new_index, eq_len)?', fe)
-o.lines[j+1:j+1] = ghost('''
+j = o.find('Ok(())', fe)
+o.lines[j:j] = ghost('''
 proof {
-    self.em@ = self.em@.push(e);
-    lemma_xrun_push(pre.rr(), xcanon(pre.rst0_().oc, pre.rst0_().nc, pre.rst0_().oe, pre.rst0_().ne), pre.em_(), e);
-    assert(pre.it0_() + pre.em_().push(e) =~= (pre.it0_() + pre.em_()).push(e));
+    let pre = *vstd::prelude::old(self);
+    if pre.p_eq() is Some {
+        let e = Ev::Equal(pre.p_eq().unwrap().0, pre.p_eq().unwrap().1, pre.p_eq().unwrap().2);
+        self.em@ = self.em@.push(e);
+        lemma_xrun_push(pre.rr(), pre.x0(), pre.em_(), e);
+        lemma_sent_push::<D>(pre.em_(), e);
+        assert(pre.it0_() + sent::<D>(pre.em_()) + Seq::<Ev>::empty() =~= pre.it0_() + sent::<D>(pre.em_()));
+        assert((pre.it0_() + sent::<D>(pre.em_())).push(e) =~= pre.it0_() + (sent::<D>(pre.em_()) + seq![e]) + Seq::<Ev>::empty());
+    }
 }
-''', '            ')
+''', '        ')
+
+
+DBG = '''
+proof {
+    let rst = self.rst(); let xs = self.xs(); let r0 = self.rst0_();
+    assert(rst.ok);
+    assert(self.inner().trace() == self.it0_() + sent::<D>(self.em_()) + (if rst.fin { fin::<D>() } else { Seq::<Ev>::empty() }));
+    assert(!self.inner().failed() && self.inner().accepts_replace());
+    assert(xs.ok);
+    assert(xs.oc == rst.oc - self.el() - self.dl() && xs.nc == rst.nc - self.el() - self.il());
+    assert(xs.dels == (rst.dels - r0.dels) - self.dl() && xs.inss == (rst.inss - r0.inss) - self.il() && xs.eqs == (rst.eqs - r0.eqs) - self.el());
+    assert(self.p_eq() matches Some((o, n, l)) ==> self.p_del() is None && self.p_ins() is None && l > 0 && o == xs.oc && n == xs.nc && xs.last != 1
+            && rst.ro == rst.oc && rst.rn == rst.nc && rst.po <= rst.oc && rst.pn <= rst.nc);
+    assert(self.p_eq() matches Some((o, n, l)) ==> (forall|i: int| 0 <= i < l ==> #[trigger] relk(self.rr(), o as int, n as int, i)));
+    assert(self.p_del() matches Some((o, l, n)) ==> l > 0 && o == xs.oc && rst.rn <= n && n <= rst.pn);
+    assert(self.p_ins() matches Some((o, n, l)) ==> l > 0 && n == xs.nc && rst.ro <= o && o <= rst.po);
+    assert((self.p_del() is Some || self.p_ins() is Some) ==> self.p_eq() is None && xs.last != 2 && rst.ro == xs.oc && rst.rn == xs.nc);
+    assert(rst.fin ==> self.idle());
+    assert(self.inner().relies() ==> self.inner().rely_st().ok && self.inner().rely_st().oc == xs.oc && self.inner().rely_st().nc == xs.nc);
+    assert(self.inner().relies() ==> self.inner().rely_st().oe >= r0.oe && self.inner().rely_st().ne >= r0.ne);
+    assert(self.inner().relies() ==> (!rst.fin ==> wf(self.inner().rely_st())));
+}
+'''
 
 # ---- flush_del_ins
 fd = o.find('fn flush_del_ins(&mut self)')
 o.before('{', '''
-    requires old(self).inv(), old(self).rst().ok, !old(self).inner().failed(),
+    requires old(self).core(), !old(self).rst().fin,
         // the run of changes is over: carried indices are resolved
         old(self).rst().po <= old(self).rst().oc, old(self).rst().pn <= old(self).rst().nc,
     ensures
-        final(self).hist_() == old(self).hist_(), final(self).rst0_() == old(self).rst0_(), final(self).it0_() == old(self).it0_(),
-        final(self).p_del() is None, final(self).p_ins() is None, final(self).p_eq() == old(self).p_eq(),
-        hook_frame(old(self).inner(), final(self).inner(), res),
-        res.is_ok() ==> final(self).inv_flushed(),
+''' + FRAME + '''
+        res.is_ok() ==> final(self).core() && final(self).p_del() is None && final(self).p_ins() is None && final(self).p_eq() == old(self).p_eq()
+            && ((old(self).p_del() is Some || old(self).p_ins() is Some) ==> final(self).xs().last == 2)
+            && ((old(self).p_del() is None && old(self).p_ins() is None) ==> final(self).em_() == old(self).em_()),
 ''', start=fd, ind='    ')
+o.after('{', '''
+let ghost pre = *vstd::prelude::old(self);
+proof {
+    lemma_xrun_mono(pre.rr(), pre.x0(), pre.em_());
+    lemma_mono(pre.rr(), pre.rst0_(), pre.hist_());
+}
+''', start=fd, stmt=False, ind='        ')
+def emit(o, start, pat, ev):
+    i = o.find(pat, start)
+    if o.lines[i].strip().startswith('.replace('):
+        i -= 1
+    ind = o.indent_of(i)
+    pre = ghost('''
+let ghost e = %s;
+proof { if self.d.relies() { lemma_step_exact(self.d.rely_rel(), self.d.rely_st(), e); } }
+''' % ev, ind)
+    o.lines[i:i] = pre
+    j = o.stmt_end(i + len(pre))
+    post = ghost('''
+proof {
+    self.em@ = self.em@.push(e);
+    lemma_xrun_push(pre.rr(), pre.x0(), pre.em_(), e);
+    lemma_sent_push::<D>(pre.em_(), e);
+    assert(pre.it0_() + sent::<D>(pre.em_()) + Seq::<Ev>::empty() =~= pre.it0_() + sent::<D>(pre.em_()));
+    assert(pre.it0_() + sent::<D>(pre.em_()) + sent_ev::<D>(e) =~= pre.it0_() + (sent::<D>(pre.em_()) + sent_ev::<D>(e)) + Seq::<Ev>::empty());
+    assert(seq![e] =~= Seq::<Ev>::empty().push(e));
+}
+''', ind)
+    o.lines[j+1:j+1] = post
+    return j + 1 + len(post)
+p = emit(o, fd, '.replace(del_old_index, del_old_len, ins_new_index, ins_new_len)?;', 'Ev::Replace(del_old_index, del_old_len, ins_new_index, ins_new_len)')
+p = emit(o, p, 'self.d.delete(del_old_index, del_old_len, del_new_index)?;', 'Ev::Delete(del_old_index, del_old_len, del_new_index)')
+p = emit(o, p, 'self.d.insert(ins_old_index, ins_new_index, ins_new_len)?;', 'Ev::Insert(ins_old_index, ins_new_index, ins_new_len)')
+
+i = o.find('Ok(())', fd)
+o.lines[i:i] = ghost(DBG, '        ')
+# ---- the DiffHook impl
+im = o.find('impl<D: DiffHook> DiffHook for Replace<D> {')
+i = o.find('type Error = D::Error;', im)
+o.lines[i+1:i+1] = ghost('''
+closed spec fn trace(&self) -> Seq<Ev> { self.hist_() }
+closed spec fn failed(&self) -> bool { self.inner().failed() }
+closed spec fn last_err(&self) -> Option<Self::Error> { self.inner().last_err() }
+closed spec fn relies(&self) -> bool { true }
+closed spec fn rely_rel(&self) -> Rel { self.rr() }
+/// the expected state is only acceptable (`ok`) while the adapter's invariant holds
+closed spec fn rely_st(&self) -> St { St { ok: self.inv(), ..self.rst() } }
+closed spec fn observes_finish() -> bool { true }
+closed spec fn replace_is_atomic() -> bool { true }
+/// `replace` on the Replace adapter (a pass-through that does not flush pending deletes/inserts) is outside
+/// the verified envelope: no verified caller can call it
+closed spec fn accepts_replace(&self) -> bool { false }
+''', '    ')
+
+def method(o, name, ev, flushes_first):
+    m = o.find('fn %s(' % name, im)
+    o.after('{', '''
+let ghost pre = *vstd::prelude::old(self);
+let ghost e = %s;
+proof {
+    reveal(step_rel);
+    lemma_mono(pre.rr(), pre.rst0_(), pre.hist_());
+    lemma_xrun_mono(pre.rr(), pre.x0(), pre.em_());
+}
+''' % ev, start=m, stmt=False, ind='        ')
+    return m
+
+m = method(o, 'equal', 'Ev::Equal(old_index, new_index, len)', 'flush_del_ins')
+o.after('self.flush_del_ins()?;', '''
+let ghost mid = *self;
+''', start=m)
+i = o.find('Ok(())', m)
+o.lines[i:i] = ghost('''
+proof {
+    self.hist@ = self.hist@.push(e);
+    lemma_run_push(pre.rr(), pre.rst0_(), pre.hist_(), e);
+    assert(mid.rr() == pre.rr() && self.rr() == pre.rr());
+    if mid.p_eq() is Some {
+        let eo = mid.p_eq().unwrap().0; let en = mid.p_eq().unwrap().1; let elen = mid.p_eq().unwrap().2;
+        assert forall|i: int| 0 <= i < elen + len implies #[trigger] relk(self.rr(), eo as int, en as int, i) by {
+            if i >= elen { assert(relk(pre.rr(), old_index as int, new_index as int, i - elen)); }
+            else { assert(relk(mid.rr(), eo as int, en as int, i)); }
+        }
+    }
+}
+''' + DBG, '        ')
+m = method(o, 'delete', 'Ev::Delete(old_index, old_len, new_index)', 'flush_eq')
+i = o.find('Ok(())', m)
+o.lines[i:i] = ghost('''
+proof {
+    self.hist@ = self.hist@.push(e);
+    lemma_run_push(pre.rr(), pre.rst0_(), pre.hist_(), e);
+    assert(self.core());
+}
+''', '        ')
+m = method(o, 'insert', 'Ev::Insert(old_index, new_index, new_len)', 'flush_eq')
+i = o.find('Ok(())', m)
+o.lines[i:i] = ghost('''
+proof {
+    self.hist@ = self.hist@.push(e);
+    lemma_run_push(pre.rr(), pre.rst0_(), pre.hist_(), e);
+    assert(self.core());
+}
+''', '        ')
+m = o.find('fn finish(', im)
+o.after('{', '''
+let ghost pre = *vstd::prelude::old(self);
+let ghost e = Ev::Finish;
+proof {
+    reveal(step_rel);
+    lemma_mono(pre.rr(), pre.rst0_(), pre.hist_());
+    lemma_xrun_mono(pre.rr(), pre.x0(), pre.em_());
+}
+''', start=m, stmt=False, ind='        ')
+i = o.find('self.d.finish()', m)
+o.lines[i:i] = ghost('''
+let ghost mid = *self;
+''', '        ')
+i = o.find('self.d.finish()', m)
+# finish is the tail expression: the ghost update of hist has to happen before the call (on the
+# error path the trait promises nothing about trace)
+o.lines[i:i] = ghost('''
+proof {
+    self.hist@ = self.hist@.push(e);
+    lemma_run_push(pre.rr(), pre.rst0_(), pre.hist_(), e);
+}
+''', '        ')
 o.save()
